@@ -61,11 +61,39 @@ def make_case(rng, tier):
         amp = {3: 0.003, 5: 0.05, 7: 0.5, 9: 0.5, 13: 0.5}[q]
         c['x'] = rand_coeffs(rng, (D, P, n, n), -0.5, 0.5)
         c['x'][0] = rand_coeffs(rng, (P, n, n), -amp, amp)
+        if rng.random() < 0.3:
+            # the driver that picks the Pade order itself from the 1-norm (expm_higham_2005): every direction has its own norm,
+            # in a different order's range (below theta_13 / 2.5: above, the scaling branch is not usable, NameError on the unchanged tree)
+            c['q'] = 'higham'
+            for p in range(P):
+                a = rand_coeffs(rng, (n, n), -1, 1) + np.eye(n) * 0.25
+                if np.linalg.norm(a, 1) < 0.1:
+                    a = np.eye(n)
+                c['x'][0, p] = a / np.linalg.norm(a, 1) * rng.choice([1e-3, 0.05, 0.4, 0.6, 1.5, 1.9])
     return c
+
+
+def pade_table_fails(ctx, c):
+    import importlib
+    compound = importlib.import_module('algopy.linalg.compound')
+    q, xv = int(c['q']), float(c['x'])
+    Uc, Vc = getattr(compound, '_expm_pade%d' % q)(np.array([[xv]]), np.eye(1))
+    r = ctx.model.ask({'op': 'pade', 'q': q, 'x': enc_num(xv)})
+    Um, Vm = float(F(r['U'])), float(F(r['V']))
+    if abs(float(Uc[0, 0]) - Um) > 1e-12 * max(1.0, abs(Um)) or abs(float(Vc[0, 0]) - Vm) > 1e-12 * max(1.0, abs(Vm)):
+        return 'pade-table-%d: _expm_pade%d([[x]]) gives U, V = %r, %r; the model tables give %r, %r' % (q, q, float(Uc[0, 0]), float(Vc[0, 0]), Um, Vm)
+    # through the public entry point: expm_pade([[x]], q) = (U + V) / (V - U), and it is exp(x) up to the Pade remainder
+    got = float(algopy.expm_pade(np.array([[xv]]), q)[0, 0])
+    want = (Um + Vm) / (Vm - Um)
+    if abs(got - want) > 1e-12 * max(1.0, abs(want)):
+        return 'pade-table-%d: expm_pade([[x]], %d) = %r, the model tables give %r' % (q, q, got, want)
+    return None
 
 
 def check(ctx, c):
     kind, D, P = c['op'], c['D'], c['P']
+    if kind == 'pade-table':
+        return pade_table_fails(ctx, c)
     x = np.array(c['x'])
     if kind == 'dot':
         sub = c['sub']
@@ -163,14 +191,19 @@ def check(ctx, c):
         return None
     if kind == 'expm':
         q = c.get('q', 7)
-        got = algopy.expm(UTPM(x.copy())) if (q == 7 and D % 2 == 0) else algopy.expm_pade(UTPM(x.copy()), q)
+        if q == 'higham':
+            if max(np.linalg.norm(x[0, p], 1) for p in range(P)) >= 2.09:
+                return None          # the scaling-and-squaring branch raises NameError on the unchanged tree (documented, outside)
+            got = algopy.expm_higham_2005(UTPM(x.copy()))
+        else:
+            got = algopy.expm(UTPM(x.copy())) if (q == 7 and D % 2 == 0) else algopy.expm_pade(UTPM(x.copy()), q)
         X = UTPM(x.copy())
         n = x.shape[2]
         term = UTPM(np.zeros((D, P, n, n)))
         for p in range(P):
             term.data[0, p] = np.eye(n)
         tot = term.clone()
-        for k in range(1, 30):
+        for k in range(1, 45):
             term = algopy.dot(term, X) / float(k)
             tot = tot + term
         if not close(got.data, tot.data, 1e-7):
@@ -295,6 +328,35 @@ def run(ctx):
             f = 'exception-%s: %s' % (c['op'], type(ex).__name__ + ':' + str(ex)[:100])
         if f:
             ctx.report(c, 'failure', f)
+    # expm_higham_2005 with directions whose norms lie in different Pade ranges, in both orders (the order must be the one the
+    # largest direction needs)
+    for amps in [(1e-3, 1.9), (1.9, 1e-3), (0.05, 0.6), (0.6, 0.05), (0.2, 1.2, 1e-3)]:
+        D, P, n = rng.randint(1, 3), len(amps), rng.randint(2, 3)
+        x = rand_coeffs(rng, (D, P, n, n), -0.5, 0.5)
+        for p_, amp in enumerate(amps):
+            a = rand_coeffs(rng, (n, n), -1, 1) * 0.002
+            a[:, p_ % n] += 1.0          # the column that carries the 1-norm differs from direction to direction (the others are tiny)
+            x[0, p_] = a / np.linalg.norm(a, 1) * amp
+        c = {'op': 'expm', 'D': D, 'P': P, 'q': 'higham', 'x': x}
+        ctx.evaluations += 1
+        ctx.count('op=expm:higham-mixed-norms')
+        try:
+            f = check(ctx, c)
+        except Exception as ex:
+            f = 'exception-expm: %s' % (type(ex).__name__ + ':' + str(ex)[:100])
+        if f:
+            ctx.report(c, 'failure', f)
+    # the Pade tables: `_expm_pade<q>` on 1x1 arguments against the model's U, V (the theorems `expm_pade_tables_match_exp` talk
+    # about exactly these tables and this even/odd evaluation)
+    for q in (3, 5, 7, 9, 13):
+        for k in range(4):
+            xv = dyadic(rng, -1.5, 1.5)
+            c = {'op': 'pade-table', 'q': q, 'x': xv, 'D': 1, 'P': 1}
+            ctx.evaluations += 1
+            ctx.count('op=pade-table')
+            f = pade_table_fails(ctx, c)
+            if f:
+                ctx.report(c, 'failure', f)
     # every row permutation of a 3x3 (and some 4x4) base matrix, for inv / det / every solve variant: LU pivoting of each kind
     perms = list(itertools.permutations(range(3))) + [(1, 2, 3, 0), (3, 0, 1, 2), (2, 3, 0, 1), (1, 0, 3, 2)]
     for perm in perms:
